@@ -37,7 +37,7 @@ pub struct Program {
 }
 
 pub static PROGRAMS: Mutex<Vec<Program>> = Mutex::new(Vec::new());
-pub const MAX_RULES: usize = 34;
+pub const MAX_RULES: usize = 36;
 
 pub fn install(progs: &[Program]) {
     let mut g = PROGRAMS.lock().unwrap_or_else(|p| p.into_inner());
@@ -205,6 +205,7 @@ fn interp_exec(k: usize, view: GraphView<'_>, scope: &NodeId, delta: &mut TickDe
         "read_natt" => { let _ = view.node_attachment(&x); }
         "read_eatt" => { let _ = view.edge_attachment(&ex); }
         "read_edge" => { let _ = view.has_edge(&ex); }
+        "read_natt_n2" => { let _ = view.node_attachment(&ids::node("n2")); }
         _ => {}
     }
     // 3. the program's own ops
@@ -228,6 +229,12 @@ fn interp_exec(k: usize, view: GraphView<'_>, scope: &NodeId, delta: &mut TickDe
             child_warp: other,
             child_root: ids::node("n0"),
             init: warp_core::PortalInit::Empty { root_record: NodeRecord { ty: ids::ty("tA") } },
+        }),
+        "open_portal_existing" => delta.push(WarpOp::OpenPortal {
+            key: AttachmentKey::node_alpha(nk(*scope)),
+            child_warp: other,
+            child_root: ids::node("n0"),
+            init: warp_core::PortalInit::RequireExisting,
         }),
         _ => {}
     }
@@ -261,7 +268,7 @@ macro_rules! rule_fns {
     };
 }
 rule_fns! {
-    0 => e0, m0, f0; 1 => e1, m1, f1; 2 => e2, m2, f2; 3 => e3, m3, f3; 4 => e4, m4, f4; 5 => e5, m5, f5; 6 => e6, m6, f6; 7 => e7, m7, f7; 8 => e8, m8, f8; 9 => e9, m9, f9; 10 => e10, m10, f10; 11 => e11, m11, f11; 12 => e12, m12, f12; 13 => e13, m13, f13; 14 => e14, m14, f14; 15 => e15, m15, f15; 16 => e16, m16, f16; 17 => e17, m17, f17; 18 => e18, m18, f18; 19 => e19, m19, f19; 20 => e20, m20, f20; 21 => e21, m21, f21; 22 => e22, m22, f22; 23 => e23, m23, f23; 24 => e24, m24, f24; 25 => e25, m25, f25; 26 => e26, m26, f26; 27 => e27, m27, f27; 28 => e28, m28, f28; 29 => e29, m29, f29; 30 => e30, m30, f30; 31 => e31, m31, f31; 32 => e32, m32, f32; 33 => e33, m33, f33;
+    0 => e0, m0, f0; 1 => e1, m1, f1; 2 => e2, m2, f2; 3 => e3, m3, f3; 4 => e4, m4, f4; 5 => e5, m5, f5; 6 => e6, m6, f6; 7 => e7, m7, f7; 8 => e8, m8, f8; 9 => e9, m9, f9; 10 => e10, m10, f10; 11 => e11, m11, f11; 12 => e12, m12, f12; 13 => e13, m13, f13; 14 => e14, m14, f14; 15 => e15, m15, f15; 16 => e16, m16, f16; 17 => e17, m17, f17; 18 => e18, m18, f18; 19 => e19, m19, f19; 20 => e20, m20, f20; 21 => e21, m21, f21; 22 => e22, m22, f22; 23 => e23, m23, f23; 24 => e24, m24, f24; 25 => e25, m25, f25; 26 => e26, m26, f26; 27 => e27, m27, f27; 28 => e28, m28, f28; 29 => e29, m29, f29; 30 => e30, m30, f30; 31 => e31, m31, f31; 32 => e32, m32, f32; 33 => e33, m33, f33; 34 => e34, m34, f34; 35 => e35, m35, f35;
 }
 
 /// Name of rule `r` (1-based model index).
